@@ -1,1 +1,154 @@
-// laws (corollaries) — filled below
+// ====================================================================================================================
+// 6. the laws of C16 as corollaries of the proved contracts (`head_ok ==> Ok`, `head_err ==> Err`, union arm)
+//    Every lemma has a body that verifies; read each one together with the contract of check_general_type_compact:
+//       head_ok(db, s, c, lvl) ==> check_general_type_compact(ctx{db}, s, c, guard@lvl) is Ok
+//       head_err(db, s, c, lvl) ==> ... is Err
+// ====================================================================================================================
+
+// ---- (a) any / unknown as the EXPECTED type accepts everything -------------------------------------------------------
+/// how far the head of the dispatch function lets an `any` source get: `c` is replaced by escape_type at most (100 - lvl) times, and an
+/// intersection must have a component that gets through
+pub open spec fn esc_ok(db: &DbIndex, c: LuaType, lvl: int) -> bool
+    decreases 101 - lvl
+{
+    if lvl < 0 || lvl > 100 { false }
+    else if sp_like_any(c) { true }
+    else {
+        match sp_escape(db, c) {
+            Some(o) => lvl < 100 && esc_ok(db, o, lvl + 1),
+            None => c is Intersection ==> (lvl < 100 && exists|k: int| 0 <= k < c->Intersection_0.types@.len() && esc_ok(db, #[trigger] c->Intersection_0.types@[k], lvl + 1)),
+        }
+    }
+}
+
+pub proof fn law_any_accepts(db: &DbIndex, s: LuaType, c: LuaType, lvl: int)
+    requires sp_any_or_unknown(s), esc_ok(db, c, lvl),
+    ensures head_ok(db, s, c, lvl) /*@C16.any-accepts-everything*/,
+    decreases 101 - lvl
+{
+    if sp_like_any(c) || fast_eq_lb(s, c) {
+    } else {
+        match sp_escape(db, c) {
+            Some(o) => { law_any_accepts(db, s, o, lvl + 1); }
+            None => {
+                if c is Intersection {
+                    let k = choose|k: int| 0 <= k < c->Intersection_0.types@.len() && esc_ok(db, #[trigger] c->Intersection_0.types@[k], lvl + 1);
+                    law_any_accepts(db, s, c->Intersection_0.types@[k], lvl + 1);
+                }
+            }
+        }
+    }
+}
+
+/// for the 37 variants that escape_type never replaces (and that are not intersections) the law holds at EVERY guard depth
+pub proof fn law_any_accepts_unescaped(db: &DbIndex, s: LuaType, c: LuaType, lvl: int)
+    requires sp_any_or_unknown(s), 0 <= lvl <= 100, never_escapes(c), !(c is Intersection),
+    ensures head_ok(db, s, c, lvl) /*@C16.any-accepts-everything.every-depth*/,
+{
+}
+
+/// ... but NOT for the eight escaping variants: at the depth limit the `?` on next_level() comes before the `Unknown | Any => Ok` arm
+pub proof fn any_rejected_at_depth_limit(db: &DbIndex, s: LuaType, c: LuaType)
+    requires sp_any_or_unknown(s), !sp_like_any(c), sp_escape(db, c) is Some,
+    ensures head_err(db, s, c, 100) /*@C16.any-accepts-everything.fails-at-depth-limit*/,
+{
+}
+
+/// a chain of escapes longer than the remaining depth turns `any` into a rejected source (e.g. 101 chained aliases, or a cyclic alias)
+pub open spec fn esc_chain(db: &DbIndex, c: LuaType, n: int) -> bool
+    decreases n
+{
+    if n <= 0 { true }
+    else { !sp_like_any(c) && (sp_escape(db, c) matches Some(o) && esc_chain(db, o, n - 1)) }
+}
+pub proof fn any_rejected_by_long_escape_chain(db: &DbIndex, s: LuaType, c: LuaType, lvl: int)
+    requires sp_any_or_unknown(s), 0 <= lvl <= 100, esc_chain(db, c, 101 - lvl),
+    ensures head_err(db, s, c, lvl) /*@C16.any-accepts-everything.fails-for-long-escape-chains*/,
+    decreases 101 - lvl
+{
+    if lvl < 100 {
+        any_rejected_by_long_escape_chain(db, s, sp_escape(db, c)->Some_0, lvl + 1);
+    }
+}
+
+/// an intersection without components is rejected from every source that is not itself an intersection, `any` included
+pub proof fn any_rejected_by_empty_intersection(db: &DbIndex, s: LuaType, c: LuaType, lvl: int)
+    requires sp_any_or_unknown(s), 0 <= lvl <= 100, c is Intersection, c->Intersection_0.types@.len() == 0,
+    ensures head_err(db, s, c, lvl) /*@C16.any-accepts-everything.fails-for-empty-intersection*/,
+{
+}
+
+// ---- (b) reflexivity ---------------------------------------------------------------------------------------------------
+/// the types whose reflexivity the head guard fast_eq_check decides (at every depth, before anything can fail)
+pub open spec fn refl_by_head_guard(t: LuaType) -> bool {
+    fast_unit(t) || t is Ref || (t matches LuaType::Generic(g) && arc_generic_eq(g, g))
+}
+pub proof fn law_reflexive_head_guard(db: &DbIndex, t: LuaType, lvl: int)
+    requires refl_by_head_guard(t), 0 <= lvl <= 100,
+    ensures fast_eq_lb(t, t), head_ok(db, t, t, lvl) /*@C16.reflexive*/,
+{
+}
+/// fast_eq_check(T, T) is false for every other variant (31 of 46): their reflexivity is up to the branch checkers
+pub proof fn fast_eq_reflexive_only_for(t: LuaType)
+    requires fast_eq_ub(t, t),
+    ensures fast_unit(t) || t is Ref || t is Generic /*@C16.reflexive.head-guard-variants*/,
+{
+}
+/// decided by the dispatch arms: never, TypeGuard (below the depth limit), unknown/any (like-any), unconstrained TplRef (like-any)
+pub proof fn law_reflexive_never(db: &DbIndex, t: LuaType, lvl: int)
+    requires t is Never, 0 <= lvl <= 100,
+    ensures head_ok(db, t, t, lvl) /*@C16.reflexive.never*/,
+{
+}
+pub proof fn law_reflexive_typeguard(db: &DbIndex, t: LuaType, lvl: int)
+    requires t is TypeGuard, 0 <= lvl <= 100,
+    ensures
+        lvl < 100 ==> head_ok(db, t, t, lvl) /*@C16.reflexive.typeguard*/,
+        lvl == 100 ==> head_err(db, t, t, lvl) /*@C16.reflexive.typeguard.fails-at-depth-limit*/,
+{
+    if lvl < 100 {
+        assert(sp_escape(db, t) == Some(LuaType::Boolean));
+        assert(head_ok(db, t, LuaType::Boolean, lvl + 1));
+    }
+}
+pub proof fn law_reflexive_instance(db: &DbIndex, t: LuaType, lvl: int)
+    requires
+        t is Instance, 0 <= lvl, lvl + 2 <= 100,
+        sp_like_any(t->Instance_0.base)
+            || (sp_escape(db, t->Instance_0.base) is None && !(t->Instance_0.base is Intersection) && head_ok(db, t->Instance_0.base, t->Instance_0.base, lvl + 2)),
+    ensures head_ok(db, t, t, lvl) /*@C16.reflexive.instance*/,
+{
+    let b = t->Instance_0.base;
+    assert(sp_escape(db, t) == Some(b));
+    assert(head_ok(db, t, b, lvl + 1));
+}
+
+/// FINDING (decided negatively): the dispatch `match source` has no arm for SelfInfer / Conditional / Mapped; they fall to `_ => Err`
+pub proof fn not_reflexive_for_unlisted_sources(db: &DbIndex, t: LuaType, lvl: int)
+    requires t is SelfInfer || t is Conditional || t is Mapped, 0 <= lvl <= 100,
+    ensures head_err(db, t, t, lvl) /*@C16.reflexive.fails-for-selfinfer-conditional-mapped*/,
+{
+}
+
+// ---- (c) union members -------------------------------------------------------------------------------------------------
+/// the FIRST member of a union is accepted where the union is expected, if it is a head-guard-reflexive type that is not replaced by
+/// escape_type (any depth below the limit)
+pub proof fn law_union_accepts_first_member(db: &DbIndex, s: LuaType, m: LuaType, lvl: int)
+    requires
+        s is Union, sp_into_vec(*s->Union_0).len() > 0, m == sp_into_vec(*s->Union_0)[0],
+        refl_by_head_guard(m), never_escapes(m) || sp_escape(db, m) is None, 0 <= lvl < 100,
+    ensures head_ok(db, s, m, lvl) /*@C16.union-accepts-member.first*/,
+{
+    assert(head_ok(db, m, m, lvl + 1));
+    assert(!(m is Union) && !(m is Intersection));
+    assert(cx_ok(db, s, m, lvl));
+}
+/// ANY member: the union check never answers "type mismatch" (Ok, or an error of an earlier member's branch checker leaks out)
+pub proof fn law_union_never_mismatches_member(db: &DbIndex, s: LuaType, m: LuaType, k: int, lvl: int)
+    requires
+        s is Union, 0 <= k < sp_into_vec(*s->Union_0).len(), m == sp_into_vec(*s->Union_0)[k],
+        refl_by_head_guard(m), never_escapes(m) || sp_escape(db, m) is None, 0 <= lvl < 100,
+    ensures reaches_source_arm(db, m) && some_member_ok(db, s, m, lvl) /*@C16.union-accepts-member.never-mismatch*/,
+{
+    assert(head_ok(db, sp_into_vec(*s->Union_0)[k], m, lvl + 1));
+}
